@@ -180,7 +180,14 @@ def deep_issubclass(subcls, cls):
     try:
         return _subclasscheck_registry[get_origin(cls)](cls, subcls)
     except KeyError:
-        return issubclass(subcls, cls)
+        try:
+            return issubclass(subcls, cls)
+        except TypeError as e:
+            # typing aliases such as Tuple[int, ...] are not classes; compare
+            # their origin, as is done above for wrapped types.
+            if e.args[0] == "issubclass() arg 1 must be a class":
+                return issubclass(get_origin(subcls), cls)
+            raise
 
 
 def deep_isinstance(obj, cls):
